@@ -43,5 +43,10 @@ func DefaultGenesisState() *GenesisState {
 }
 
 func (m *GenesisState) Validate() error {
+	for i := range m.AssetRatesParams {
+		if err := m.AssetRatesParams[i].Validate(); err != nil {
+			return err
+		}
+	}
 	return nil
 }
